@@ -166,6 +166,18 @@ def _oracle(spec, kern, x1, x2):
     return O.dense(kern, x1, x2)
 
 
+def _check_active(spec, kern, ctx):
+    """the oracle reads active_dims from the kernel object: first make sure the object holds the columns it was GIVEN, in
+    the given order (per-dimension parameters follow that order)"""
+    if "active_dims" in spec:
+        got = None if kern.active_dims is None else [int(i) for i in kern.active_dims]
+        ctx.expect("active_dims_as_given", got == list(spec["active_dims"]), f"{type(kern).__name__}(active_dims={spec['active_dims']}) stores {got}", kclass=type(kern).__name__)
+    if "base" in spec and isinstance(spec["base"], dict) and hasattr(kern, "base_kernel"):
+        _check_active(spec["base"], kern.base_kernel, ctx)
+    for sp, kk in zip(spec.get("parts", []), getattr(kern, "kernels", [])):
+        _check_active(sp, kk, ctx)
+
+
 def _sens(kern):
     """upper bound on |d k / d (one input coordinate)| from the constrained parameter values"""
     import torch
@@ -215,6 +227,7 @@ def _run_case(case, ctx):
         return _gradkernel(case, ctx, g)
     spec, d = case["kernel"], case["d"]
     kern = _build(spec, d, case["pbatch"])
+    _check_active(spec, kern, ctx)
     scale = {"random": 0.7, "small": 0.3, "large": 0.3, "faraway": 0.5}[case["regime"]]
     util.randomize(kern, g, scale)
     if case["regime"] in ("small", "large"):
